@@ -1,6 +1,7 @@
 import PytypeModel.Proofs.ArgBindMain
 import PytypeModel.Proofs.ArgBindSelf
 import PytypeModel.Proofs.KwReg
+import PytypeModel.Proofs.ArgBindPytd
 
 /-! # C13 — calls bind arguments exactly as CPython does
 
@@ -320,5 +321,34 @@ example : spec [.kw ["q"], .call 2, .call 1, .kw ["a", "b"], .call 3] = [⟨1, [
   decide
 
 end kwreg
+
+/-! ### callees declared in a stub: `PyTDSignature._map_args` (`Sem/ArgBindPytd.lean`) -/
+
+/-- the stub binder accepts exactly the calls the interpreter binder accepts (no hypothesis needed) -/
+theorem pytd_ok_iff_interp (s : Sig) (c : Call) :
+    (∃ d, mapArgsPytd s c = .ok d) ↔ (∃ d, mapArgs s c = .ok d) := pytd_ok_iff_interp' s c
+
+/-- **for a function declared in a stub, pytype reports an arity or keyword error iff CPython raises TypeError binding
+the same call to the declared signature** (every signature, every call shape) -/
+theorem pytd_bind_ok_iff (s : Sig) (c : Call) (hs : s.WF) (hc : c.WF) :
+    (∃ d, mapArgsPytd s c = .ok d) ↔ (∃ d', cpyBind s c = .ok d') :=
+  (pytd_ok_iff_interp s c).trans (bind_ok_iff s c hs hc)
+
+/-- when both succeed, every declared parameter the stub binder has an argument for is matched against the argument
+CPython binds to it, and a declared parameter it has no argument for takes its default in CPython -/
+theorem pytd_bind_same (s : Sig) (c : Call) (hs : s.WF) (hc : c.WF) (d d' : Dict)
+    (hm : mapArgsPytd s c = .ok d) (hp : cpyBind s c = .ok d') :
+    ∀ p ∈ s.params ++ s.kwonly,
+      (∀ r, d.lookup p = some r → d'.lookup p = some r) ∧ (d.lookup p = none → d'.lookup p = some .default) :=
+  pytd_bind_same_of s c hs hc d d' hm (fun dm hdm => bind_same s c hs hc dm d' hdm hp)
+
+/-- the accept/reject decision never differs from CPython's, the *class* of the error may: `def f(x): ...;
+f(1, 2, zz=3)` is wrong-arg-count to the stub binder (it counts positionals first) and "unexpected keyword
+argument" to CPython (it runs the keyword loop first) -/
+theorem pytd_error_class_differs :
+    ∃ (s : Sig) (c : Call), s.WF ∧ c.WF ∧ outcomeM (mapArgsPytd s c) ≠ outcomeC (cpyBind s c) :=
+  PytypeModel.ArgBind.pytd_error_class_differs
+
+example : (∃ d, mapArgsPytd ⟨[1], [2], none, [3], some 9, [3]⟩ ⟨1, [1, 2]⟩ = .ok d) := ⟨_, rfl⟩
 
 end PytypeModel.Props.C13
